@@ -14,7 +14,7 @@ CLAIMED = {
     "C02": ("§4 C02", "Assume/guarantee chain over the DTLS handshake context (Connected => Finished verified => keys after verified key exchange => signature by the fingerprinted certificate => fingerprint from remote SDP), each link a cut-set/who-may rule over all CFG paths; the ServerKeyExchange signature input is the RFC 4492 5.4 byte sequence in verifier and signer; application data is handed up only from records authenticated under the negotiated keys; the server-role gap is reported as a known finding."),
     "C03": ("§4 C03", "Cut-set rules: no upward effect from an unauthenticated record; only the sealed buffer is sent, only under Connected, bounded record size; every AEAD seal consumes a fresh sequence number (atomic RMW or counter advanced on every path); the AEAD additional data is built from the record header fields as received (dataflow)."),
     "C05": ("§4 C05", "Cut-set rules: replay/rollover state (incl. writes through &mut borrows and callees), Ok returns and per-SSRC table changes (transitively through session helpers) in the SRTP receive path are reachable only past an authentication-success edge; the SRTCP AEAD input contains the received header, body and index word unmodified; the HMAC tag comparator pairs every byte of one operand with the same byte of the other over their whole (equal) length; transport drops on unprotect error."),
-    "C06": ("§4 C06", "Cut-set: every ICE state effect of the inbound Binding-request handlers is cut by the verification-succeeded edge (USERNAME names the local ufrag, MESSAGE-INTEGRITY valid under the local password) or by transport_mode != WebRtc (10 known findings remain in the inbound-TCP nomination helper, which is also reached without a request; a new unauthenticated effect is still reported); responses are dispatched only on the Some edge of pending_transactions.remove(id) and a binding check succeeds only past id/method/class tests; the mux demultiplexer routes a request that names a ufrag by that ufrag only; the set of message fields the unauthenticated request handlers read is frozen (a new attacker-chosen input to the ICE state is reported)."),
+    "C06": ("§4 C06", "Cut-set: every ICE state effect of the inbound Binding-request handlers is cut by the verification-succeeded edge (USERNAME names the local ufrag, MESSAGE-INTEGRITY valid under the local password) or by transport_mode != WebRtc (the inbound-TCP nomination helper by assume/guarantee: every call site cut by verification, not-WebRtc or membership of the stream's peer in the set that only the authenticated path fills); responses are dispatched only on the Some edge of pending_transactions.remove(id) and a binding check succeeds only past id/method/class tests; the mux demultiplexer routes a request that names a ufrag by that ufrag only; the set of message fields the unauthenticated request handlers read is frozen (a new attacker-chosen input to the ICE state is reported)."),
     "C07": ("§4 C07", "Site census with proof-or-table over the network-facing entry points and their whole crate call closure (about 1540 bodies, 1276 potential panic sites): every bounds/overflow/div-by-zero Assert, every call of a modelled panicking std/bytes API and every call of any std/bytes function whose documentation has a '# Panics' section is either PROVEN by a forward length analysis (difference constraints over integer locals and buffer lengths with cursor accounting, slicing, branch refinement, iterator ranges, range-argument ordering and callee preconditions checked at every call site) or listed in a reviewed table with its reason. Every loop in scope makes progress or suspends on every trip (lower bounds from the same analysis, decoder consumption summaries). Every explicit allocation request is sized by a constant, a <= 16-bit value, something linear in existing buffer lengths, or a guarded value. Decides panic-freedom of those sites, per-trip progress of those loops and boundedness of those allocation requests relative to the library model; growth of long-lived tables across packets is not decided."),
     "C09": ("§4 C09", "Table agreement: (SDP type, required state, next state) triples extracted from the CFG of the four JSEP entry points equal the JSEP table; who-may-send on the signaling state; no-effect-before-failure: no feasible CFG path (SDP type and signaling state tracked as correlated predicates, infallible callees pruned by summary) from an effect to an error return. Errors that only propagate a transport start-up failure are listed as not decided."),
     "C11": ("§4 C11", "Necessary conditions of RFC 6347 4.2.4 retransmission: every handshake record sent flows into the stored flight, the stored flight is only ever replaced (never consumed), the retransmit tick re-sends it while Handshaking on every path (no other early return) and the deadline ends in Failed, a duplicate client Finished re-sends the final flight in the server role, a duplicated HelloVerifyRequest is not mistaken for the server's restarted flight, epoch-0 records are never rejected by the record layer, fragments are placed by offset and a first fragment always restarts reassembly; encoder and decoder of record / handshake headers agree on byte positions; client and server copies of the key derivation feed identical PRF calls. Convergence over loss histories and key agreement are not decided."),
